@@ -854,3 +854,20 @@ def split_request(chk, rule, f, total, what):
         break
     chk.ob(rule, "%s: every source gives what it has but not more than is still missing, the running total is added to, the remainder is requested (%s)" %
            (f.qualname, what), ok, f.where(), detail=detail, construct=f.ident, text="split request in " + f.name)
+
+
+def mode_delays_own(chk, rule):
+    """Every delay armed inside class Mode goes to the mode's own DelayManager (`self.delay`), which Mode.stop clears; a delay armed on
+    another manager (the machine-wide one) survives the mode and fires into a stopped mode."""
+    repo = chk.repo
+    mode = repo.cls("mpf/core/mode.py", "Mode")
+    n = 0
+    for m in mode.methods.values():
+        for c in m.calls():
+            if call_attr(c) in ("add", "reset", "add_if_doesnt_exist") and isinstance(c.func, ast.Attribute) and src(c.func.value).endswith("delay") and \
+                    (kwarg(c, "ms") is not None or kwarg(c, "callback") is not None or len(c.args) >= 2):
+                n += 1
+                chk.analysed(m)
+                chk.ob(rule, "a delay armed inside Mode.%s is the mode's own (self.delay), which Mode.stop clears" % m.name, src(c.func.value) == "self.delay", m.where(c),
+                       detail="armed on %s" % src(c.func.value), construct=m.ident, text="mode delay armed on " + src(c.func.value))
+    chk.ob(rule, "delays armed inside Mode examined", n >= 1, mode.where(), detail=str(n), nontrivial=False)
